@@ -145,6 +145,16 @@ func renumberRows(rows []siteRow, norm func([]string) []string) []siteRow {
 				}
 				sort.Strings(alts)
 				alts = uniq(alts)
+				// `a` or `not a` is no condition at all
+				altSet := map[string]bool{}
+				for _, a := range alts {
+					altSet[a] = true
+				}
+				for _, a := range alts {
+					if !strings.Contains(a, " & ") && len(a) > 2 && altSet["("+negGuard(a[1:len(a)-1])+")"] {
+						trivial = true
+					}
+				}
 				attrs := common
 				if !trivial && len(alts) > 1 {
 					attrs = append(attrs, "OR{"+strings.Join(alts, " | ")+"}")
